@@ -136,4 +136,220 @@ theorem opMethod_sar (a b : Int) (ha : Kind.s64.inRange a) (h : shiftDefined b) 
     consts; omega
   exact wrap_of_inRange .s64 _ hr
 
+theorem tmod_sign_bound (a b : Int) (hb : b ≠ 0) :
+    (0 ≤ a → 0 ≤ Int.tmod a b) ∧ (a ≤ 0 → Int.tmod a b ≤ 0) ∧ (Int.tmod a b).natAbs < b.natAbs := by
+  refine ⟨fun h => Int.tmod_nonneg b h, fun h => ?_, ?_⟩
+  · have h1 := Int.tmod_nonneg b (show 0 ≤ -a by omega)
+    rw [Int.neg_tmod] at h1
+    omega
+  · rw [Int.natAbs_tmod]
+    exact Nat.mod_lt _ (by omega)
+
+theorem dvd_iff_tdiv_mul (a b : Int) : b ∣ a ↔ Int.tdiv a b * b = a := by
+  constructor
+  · exact Int.tdiv_mul_cancel
+  · intro h; exact ⟨Int.tdiv a b, by rw [Int.mul_comm]; exact h.symm⟩
+
+theorem fdiv_in_range (a b : Int) (ha : Kind.s64.inRange a) (hmin : ¬ (a = int64Min ∧ b = -1)) :
+    Kind.s64.inRange (Int.fdiv a b) := by
+  have h1 := Int.natAbs_fdiv_le_natAbs a b
+  have h2 := Int.mul_fdiv_add_fmod a b
+  have h3 := @Int.fmod_eq_emod a b
+  consts
+  by_cases hq : Int.fdiv a b = 9223372036854775808
+  · exfalso
+    rw [hq] at h2
+    have ha' : a = -9223372036854775808 := by omega
+    subst ha'
+    by_cases hb : 0 ≤ b
+    · have : 0 ≤ (-9223372036854775808 : Int) % b ∨ b = 0 := by
+        by_cases h0 : b = 0
+        · right; exact h0
+        · left; exact Int.emod_nonneg _ h0
+      simp only [hb, true_or, if_true] at h3
+      rcases this with h | h
+      · omega
+      · subst h; simp [Int.fdiv_zero] at hq
+    · have hb' : b < 0 := by omega
+      have e1 : 0 ≤ (-9223372036854775808 : Int) % b := Int.emod_nonneg _ (by omega)
+      have e2 : (-9223372036854775808 : Int) % b < -b := by
+        have := Int.emod_lt_of_pos (-9223372036854775808) (show 0 < -b by omega)
+        rwa [Int.emod_neg] at this
+      split at h3 <;> omega
+  · omega
+
+theorem divf_eq_floor_div (g : Bool) (a b : Int) (ha : Kind.s64.inRange a) (hb0 : b ≠ 0)
+    (hmin : ¬ (a = int64Min ∧ b = -1)) : divfMethod g a b = .ok (Int.fdiv a b) := by
+  have hr := fdiv_in_range a b ha hmin
+  unfold divfMethod
+  have c1 : ¬ (b = -1 ∧ a = int64Min) := fun h => hmin ⟨h.2, h.1⟩
+  have c2 : (g && decide (b = -1) && decide (a = int64Min)) = false := by
+    by_cases h1 : b = -1 <;> by_cases h2 : a = int64Min <;> simp [h1, h2] <;> exact absurd ⟨h2, h1⟩ hmin
+  rw [if_neg hb0, c2]
+  simp only [Bool.false_eq_true, if_false, if_neg c1]
+  congr 1
+  rw [← wrap_of_inRange .s64 _ hr]
+  show wrapS _ = wrapS _
+  congr 1
+  rw [@Int.fdiv_eq_tdiv a b]
+  have hs : b.sign = if 0 < b then 1 else -1 := by
+    by_cases h : 0 < b
+    · simp [h, Int.sign_eq_one_of_pos h]
+    · have : b < 0 := by omega
+      simp [h, Int.sign_eq_neg_one_of_neg this]
+  rw [hs]
+  by_cases hd : b ∣ a
+  · have hd' := (dvd_iff_tdiv_mul a b).1 hd
+    simp [hd, hd']
+  · have hd' : ¬ (Int.tdiv a b * b = a) := fun h => hd ((dvd_iff_tdiv_mul a b).2 h)
+    by_cases h1 : a < 0 <;> by_cases h2 : b < 0 <;> simp [hd, hd', h1, h2] <;> omega
+
+
+theorem fmod_neg_one (a : Int) : Int.fmod a (-1) = 0 := by
+  have h := @Int.fmod_eq_emod a (-1)
+  have : (-1 : Int) ∣ a := ⟨-a, by omega⟩
+  simp [this] at h
+  omega
+
+theorem mod_eq_floor_mod (g : Bool) (a b : Int) (ha : Kind.s64.inRange a) (hb : Kind.s64.inRange b) (hb0 : b ≠ 0)
+    (hmin : g = true ∨ ¬ (a = int64Min ∧ b = -1)) : modMethod g a b = .ok (Int.fmod a b) := by
+  unfold modMethod
+  rw [if_neg hb0]
+  by_cases hg : (g && decide (b = -1)) = true
+  · rw [if_pos hg]
+    simp only [Bool.and_eq_true, decide_eq_true_eq] at hg
+    rw [hg.2, fmod_neg_one]
+  · rw [if_neg hg]
+    have c1 : ¬ (b = -1 ∧ a = int64Min) := by
+      intro h
+      rcases hmin with h1 | h1
+      · apply hg; simp [h1, h.1]
+      · exact h1 ⟨h.2, h.1⟩
+    rw [if_neg c1]
+    show Res.ok (wrapS (if (decide (a < 0) != decide (b < 0) && Int.tmod a b != 0) = true then Int.tmod a b + b else Int.tmod a b)) = Res.ok (Int.fmod a b)
+    congr 1
+    obtain ⟨t1, t2, t3⟩ := tmod_sign_bound a b hb0
+    have hf := @Int.fmod_eq_tmod a b
+    have hdv := @Int.dvd_iff_tmod_eq_zero b a
+    have hr : ∀ v, v = Int.fmod a b → Kind.s64.inRange v := by
+      intro v hv
+      subst hv
+      rw [hf]
+      consts
+      split <;> (try split) <;> (try split) <;> omega
+    rw [← wrap_of_inRange .s64 _ (hr _ rfl)]
+    show wrapS _ = wrapS _
+    congr 1
+    rw [hf]
+    by_cases hd : b ∣ a
+    · have hx := hdv.1 hd
+      simp [hd, hx]
+    · have hx : ¬ (Int.tmod a b = 0) := fun h => hd (hdv.2 h)
+      by_cases h1 : a < 0 <;> by_cases h2 : b < 0 <;> simp [hd, hx, h1, h2] <;> omega
+
+theorem mod_zero_is_dividend (g : Bool) (a : Int) : modMethod g a 0 = .ok a := by
+  unfold modMethod; simp
+
+theorem div_zero_errors (g : Bool) (a : Int) :
+    divfMethod g a 0 = .err .divzero ∧ divMethodS g "div" "/" a 0 = .err .divzero ∧ divMethodS g "rem" "%" a 0 = .err .divzero
+    ∧ divMethodU "div" "/" a 0 = .err .divzero ∧ divMethodU "rem" "%" a 0 = .err .divzero ∧ divMethodU "mod" "%" a 0 = .ok a := by
+  refine ⟨?_, ?_, ?_, ?_, ?_, ?_⟩ <;> simp [divfMethod, divMethodS, divMethodU, Gen.Int64.divzeroErrorsDiv, Gen.Int64.divzeroErrorsRem, Gen.Int64.divzeroErrorsMod]
+
+/-- C's truncating `/` and `%` on s64 (guarded), and `/`, `%` on u64 -/
+theorem trunc_div_rem_correct (a b : Int) (hb0 : b ≠ 0) :
+    (¬ (a = int64Min ∧ b = -1) → divMethodS true "div" "/" a b = .ok (Int.tdiv a b) ∧ divMethodS true "rem" "%" a b = .ok (Int.tmod a b))
+    ∧ ((a = int64Min ∧ b = -1) → divMethodS true "div" "/" a b = .err .minneg ∧ divMethodS true "rem" "%" a b = .err .minneg)
+    ∧ divMethodU "div" "/" a b = .ok (a / b) ∧ divMethodU "rem" "%" a b = .ok (a % b) ∧ divMethodU "mod" "%" a b = .ok (a % b) := by
+  refine ⟨fun h => ?_, fun h => ?_, ?_, ?_, ?_⟩
+  · have c1 : ¬ (b = -1 ∧ a = int64Min) := fun h' => h ⟨h'.2, h'.1⟩
+    have c2 : (true && decide (b = -1) && decide (a = int64Min)) = false := by
+      by_cases h1 : b = -1 <;> by_cases h2 : a = int64Min <;> simp [h1, h2] <;> exact absurd ⟨h2, h1⟩ h
+    constructor <;> (unfold divMethodS; rw [if_neg hb0, c2]; simp [c1])
+  · constructor <;> (unfold divMethodS; rw [if_neg hb0]; simp [h.1, h.2])
+  · unfold divMethodU; rw [if_neg hb0]; simp
+  · unfold divMethodU; rw [if_neg hb0]; simp
+  · unfold divMethodU; rw [if_neg hb0]; simp
+
+
+theorem divMethodS_ub_iff (g : Bool) (name oper : String) (a b : Int) :
+    divMethodS g name oper a b = .ub ↔ (g = false ∧ a = int64Min ∧ b = -1) := by
+  unfold divMethodS
+  by_cases hb0 : b = 0
+  · subst hb0
+    simp only [if_true]
+    constructor
+    · intro h; exfalso; revert h; split <;> (try split) <;> simp
+    · intro h; omega
+  · rw [if_neg hb0]
+    by_cases h1 : b = -1 <;> by_cases h2 : a = int64Min <;> cases g <;> simp [h1, h2] <;> (try split) <;> simp
+
+theorem divfMethod_ub_iff (g : Bool) (a b : Int) :
+    divfMethod g a b = .ub ↔ (g = false ∧ a = int64Min ∧ b = -1) := by
+  unfold divfMethod
+  by_cases hb0 : b = 0
+  · subst hb0; simp
+  · rw [if_neg hb0]
+    by_cases h1 : b = -1 <;> by_cases h2 : a = int64Min <;> cases g <;> simp [h1, h2]
+
+theorem modMethod_ub_iff (g : Bool) (a b : Int) :
+    modMethod g a b = .ub ↔ (g = false ∧ a = int64Min ∧ b = -1) := by
+  unfold modMethod
+  by_cases hb0 : b = 0
+  · subst hb0; simp
+  · rw [if_neg hb0]
+    by_cases h1 : b = -1 <;> by_cases h2 : a = int64Min <;> cases g <;> simp [h1, h2]
+
+theorem divMethodU_ne_ub (name oper : String) (a b : Int) : divMethodU name oper a b ≠ .ub := by
+  unfold divMethodU
+  split
+  · split <;> (try split) <;> simp
+  · split <;> simp
+
+theorem opMethod_ne_ub (k : Kind) (oper : String) (a b : Int) : opMethod k oper a b ≠ .ub := by
+  unfold opMethod
+  split <;> simp
+
+theorem unwrap_ne_ub (k : Kind) (v : Val) : unwrap k v ≠ .ub := by
+  cases k <;> cases v <;> simp [unwrap, unwrapS, unwrapU] <;> split <;> simp
+
+/-- the arithmetic method bodies of inttypes.c, as instantiated by configuration `c`, never perform an undefined
+    C operation — exactly when every signed `/` and `%` is guarded -/
+def ArithNoUb (c : Cfg) : Prop :=
+  ∀ (name oper : String) (a b : Int),
+    divMethodS c.guardDiv name oper a b ≠ .ub ∧ divMethodS c.guardDivi name oper a b ≠ .ub ∧
+    divfMethod c.guardDivf a b ≠ .ub ∧ divfMethod c.guardDivfi a b ≠ .ub ∧
+    modMethod c.guardMod a b ≠ .ub ∧ modMethod c.guardModi a b ≠ .ub ∧
+    divMethodU name oper a b ≠ .ub ∧ (∀ k, opMethod k oper a b ≠ .ub)
+
+theorem no_ub_iff_guarded (c : Cfg) : ArithNoUb c ↔ c.allGuarded = true := by
+  constructor
+  · intro h
+    have w := h "div" "/" int64Min (-1)
+    simp only [ne_eq, divMethodS_ub_iff, divfMethod_ub_iff, modMethod_ub_iff, and_true] at w
+    unfold Cfg.allGuarded
+    obtain ⟨w1, w2, w3, w4, w5, w6, _⟩ := w
+    cases h1 : c.guardDiv <;> cases h2 : c.guardDivi <;> cases h3 : c.guardDivf <;> cases h4 : c.guardDivfi <;>
+      cases h5 : c.guardMod <;> cases h6 : c.guardModi <;> simp_all
+  · intro h name oper a b
+    unfold Cfg.allGuarded at h
+    simp only [Bool.and_eq_true] at h
+    obtain ⟨⟨⟨⟨⟨h1, h2⟩, h3⟩, h4⟩, h5⟩, h6⟩ := h
+    refine ⟨?_, ?_, ?_, ?_, ?_, ?_, divMethodU_ne_ub _ _ _ _, fun k => opMethod_ne_ub k _ _ _⟩ <;>
+      simp [divMethodS_ub_iff, divfMethod_ub_iff, modMethod_ub_iff, h1, h2, h3, h4, h5, h6]
+
+/-- the part that holds on every tree: nothing but INT64_MIN / -1 can be undefined -/
+theorem no_ub_partial (c : Cfg) (name oper : String) (a b : Int) (h : ¬ (a = int64Min ∧ b = -1)) :
+    divMethodS c.guardDiv name oper a b ≠ .ub ∧ divMethodS c.guardDivi name oper a b ≠ .ub ∧
+    divfMethod c.guardDivf a b ≠ .ub ∧ divfMethod c.guardDivfi a b ≠ .ub ∧
+    modMethod c.guardMod a b ≠ .ub ∧ modMethod c.guardModi a b ≠ .ub := by
+  simp only [ne_eq, divMethodS_ub_iff, divfMethod_ub_iff, modMethod_ub_iff]
+  refine ⟨?_, ?_, ?_, ?_, ?_, ?_⟩ <;> (intro h'; exact h ⟨h'.2.1, h'.2.2⟩)
+
+/-- the pinned tree reaches an undefined C operation: `(div (int/s64 "-9223372036854775808") -1)`, `(mod ... -1)` -/
+theorem ub_reachable_on_pinned :
+    divfMethod cfgPinned.guardDivf int64Min (-1) = .ub ∧ modMethod cfgPinned.guardMod int64Min (-1) = .ub ∧
+    callCfun2 cfgPinned .s64 "s64_divf" (.s64 int64Min) (.num 0xbff0000000000000) = .ub := by
+  refine ⟨by decide, by decide, by decide⟩
+
+
 end JanetModel.Int64
